@@ -105,3 +105,20 @@ def c11_accepted_invalid(label) -> bool:
 
 def c12_desc_excluded(d) -> bool:
     return False
+
+
+def c15_string_default_text(s) -> bool:
+    """KF C15-string-default-unescaped: a String/ID/custom-scalar default is reported as '"' + value + '"' without escaping,
+    so a default containing a quote, a backslash or a character that may not appear raw in a string is not valid GraphQL.
+    tests/test_execution/test_introspection.py pins the unescaped form (a raw form feed inside the quotes)."""
+    if not ENABLED:
+        return False
+    for c in s:
+        if c == '"' or c == "\\" or (c < " " and c != "\t"):
+            return True
+    return False
+
+
+def c15_string_default(exp) -> bool:
+    d = exp.get("default")
+    return isinstance(d, str) and c15_string_default_text(d)
